@@ -268,6 +268,10 @@ type outcome struct {
 	liveAddr    *ethtypes.Address0xHex
 	liveTx      *ethsigner.Transaction
 	livePayload []byte
+	// wave 6: the shape of the Go result tuple ("an error, or an address together with the fields and the
+	// payload"): non-empty when an error came with a non-nil address/transaction, or no error with a nil
+	// address / transaction / fields / empty payload
+	shape string
 }
 
 func copyInt(h *ethtypes.HexInteger) *ethtypes.HexInteger {
@@ -352,12 +356,36 @@ func runImpl(entry int, in []byte, chain int64) (o outcome) {
 	default:
 		tx, e := ethsigner.DecodeEIP1559SignaturePayload(ctx, in, chain)
 		if e != nil {
-			return outcome{cls: 1, err: e.Error()}
+			o = outcome{cls: 1, err: e.Error()}
+			if tx != nil {
+				o.shape = "an error was returned together with a non-nil transaction"
+			}
+			return o
 		}
-		return outcome{cls: 0, tx: copyTx(tx), liveTx: tx}
+		o = outcome{cls: 0, tx: copyTx(tx), liveTx: tx}
+		if tx == nil {
+			o.shape = "no error was returned but the transaction is nil"
+		}
+		return o
 	}
 	if err != nil {
-		return outcome{cls: 1, err: err.Error()}
+		o = outcome{cls: 1, err: err.Error()}
+		if a != nil || t != nil {
+			o.shape = "an error was returned together with a non-nil address or transaction"
+		}
+		return o
+	}
+	if a == nil || t == nil || t.Transaction == nil || len(t.Payload) == 0 {
+		// "returns an error, or an address together with the decoded fields and the signed payload"
+		o = outcome{cls: 0, shape: "no error was returned but the address, the transaction, its fields or the payload is nil/empty"}
+		if a != nil {
+			o.addr = append([]byte{}, a[:]...)
+			o.liveAddr = a
+		}
+		if t != nil {
+			o.tx, o.payload, o.liveTx, o.livePayload = copyTx(t.Transaction), append([]byte{}, t.Payload...), t.Transaction, t.Payload
+		}
+		return o
 	}
 	// the projections are compared on copies taken now; the values themselves are kept as well (retained results)
 	o = outcome{cls: 0, tx: copyTx(t.Transaction), payload: append([]byte{}, t.Payload...), liveAddr: a, liveTx: t.Transaction, livePayload: t.Payload}
@@ -501,12 +529,13 @@ type desc struct {
 }
 
 type gen struct {
-	w         *cv.Writer
-	st        *cv.Stats
-	seen      map[string]bool
-	ring      []*retainedRes
-	pool      []*retainedRes
-	failCount map[string]int
+	w            *cv.Writer
+	st           *cv.Stats
+	seen         map[string]bool
+	ring         []*retainedRes
+	pool         []*retainedRes
+	failCount    map[string]int
+	shapeChecked int
 }
 
 var entryNames = []string{"RecoverRawTransaction", "RecoverLegacyRawTransaction", "RecoverEIP1559Transaction", "DecodeEIP1559SignaturePayload"}
@@ -621,6 +650,11 @@ func (g *gen) add(kind string, entry int, in cv.DSL, chain int64) outcome {
 		g.fail("input-modified", map[string]interface{}{"what": entryNames[entry] + " modified the caller's input buffer",
 			"input": shortHex(b), "chain": chain, "entry": entry})
 	}
+	if o.shape != "" {
+		g.fail("result-shape", map[string]interface{}{"what": entryNames[entry] + ": " + o.shape + " (the result must be an error, or an address together with the fields and the payload)",
+			"input": shortHex(b), "chain": chain, "entry": entry})
+	}
+	g.shapeChecked++
 	fp0 := fpOf(o.cls, nil, o.tx, o.payload) // from the copies taken inside runImpl
 	if o.cls == 0 && entry != 3 && len(o.addr) == 20 {
 		var a ethtypes.Address0xHex
@@ -1343,6 +1377,9 @@ func blockDigest(entry int, chain int64, k int, prefix []byte, count *int, panic
 			if o.cls == 2 && len(*panics) < 8 {
 				*panics = append(*panics, fmt.Sprintf("%s(%s)", entryNames[entry], hex.EncodeToString(cur)))
 			}
+			if o.shape != "" && len(*panics) < 8 {
+				*panics = append(*panics, fmt.Sprintf("%s(%s): %s", entryNames[entry], hex.EncodeToString(cur), o.shape))
+			}
 			acc = mix(acc, serOutcome(o))
 			*count++
 			return
@@ -1649,6 +1686,7 @@ func main() {
 	}
 	g.concurrentSection(wk, rounds)
 	st.Extra["retained_window"] = retainN
+	st.Extra["result_shape_checked"] = g.shapeChecked
 	st.Extra["concurrent_pool"] = len(g.pool)
 	if err := g.w.Flush(); err != nil {
 		panic(err)
@@ -1671,7 +1709,7 @@ func main() {
 		}
 	}
 	for _, p := range panics {
-		st.ImplFailures = append(st.ImplFailures, map[string]interface{}{"what": "panicked in the exhaustive sweep", "input": p})
+		st.ImplFailures = append(st.ImplFailures, map[string]interface{}{"what": "panicked (or returned neither an error nor a complete result) in the exhaustive sweep", "input": p})
 	}
 	sweepShards := 4
 	for k := 0; k < sweepShards; k++ {
